@@ -79,8 +79,38 @@ def case_term(name, n, ps):
         name, n, zlist(ps), name, n, zlist(ps))
 
 
-HEADER = ("From Coq Require Import List ZArith QArith.\nFrom PyOrb.model Require Import M_Instruments.\n"
-          "Import ListNotations.\nSet Printing Depth 100000000.\nSet Printing Width 1000000.\n")
+HEADER = r"""From Coq Require Import List ZArith QArith.
+From PyOrb.model Require Import M_Instruments.
+Import ListNotations.
+Set Printing Depth 100000000.
+Set Printing Width 1000000.
+(* printing helpers: run-length compression of equal consecutive rows / values, row digests *)
+Fixpoint rle {X} (eqb : X -> X -> bool) (l : list X) : list (nat * X) :=
+  match l with
+  | [] => []
+  | x :: t => match rle eqb t with
+              | (k, y) :: r => if eqb x y then (S k, y) :: r else (1%nat, x) :: (k, y) :: r
+              | [] => [(1%nat, x)]
+              end
+  end.
+Fixpoint list_eqb {X} (eqb : X -> X -> bool) (a b : list X) : bool :=
+  match a, b with
+  | [], [] => true
+  | x :: a', y :: b' => eqb x y && list_eqb eqb a' b'
+  | _, _ => false
+  end.
+Definition Qeqb (a b : Q) : bool := (Qnum a =? Qnum b)%Z && (Qden a =? Qden b)%positive.
+Definition row_hash (r : list Z) : Z * Z :=
+  let '(_, s1, s2) := fold_left (fun acc x => let '(i, s1, s2) := acc in ((i + 1)%Z, (s1 + x)%Z, (s2 + i * x)%Z))
+                                r (1%Z, 0%Z, 0%Z) in (s1, s2).
+Definition show_angles (a : list (list (list Q))) : list (list (nat * list (nat * (Z * Z)))) :=
+  map (fun plane => map (fun kr => (fst kr, map (fun kq => let q := Qred (snd kq) in (fst kq, (Qnum q, Zpos (Qden q))))
+                                                (rle Qeqb (snd kr))))
+                        (rle (list_eqb Qeqb) plane)) a.
+Definition show_times (tm : list (list Z)) : list (nat * (nat * (Z * Z) * Z * Z)) :=
+  map (fun kr => let r := snd kr in (fst kr, (length r, row_hash r, hd 0%Z r, last r 0%Z)))
+      (rle (list_eqb Z.eqb) tm).
+"""
 
 
 def parse_blocks(out):
@@ -368,21 +398,20 @@ def run(ctx):
                 c, L, i = np.unravel_index(int(np.argmax(np.abs(marr - fovs))), marr.shape)
                 ctx.corr_fail("M_Instruments.angles vs %s().fovs" % name,
                               dict(info, plane=int(c), line=int(L), position=int(ps[i]), model=float(marr[c, L, i]), impl=float(fovs[c, L, i])))
-            iruns = impl_time_runs(ns)
-            mruns = [(cnt, to_tuple(d)) for cnt, d in mtimes]
-            if [(r[0], to_tuple(r[1])) for r in iruns] != mruns:
-                detail = dict(info, model_lines=sum(r[0] for r in mruns), impl_lines=int(ns.shape[0]))
-                if ns.ndim == 2 and name in DOC and sum(r[0] for r in mruns) == ns.shape[0]:
+            mexp = [to_tuple(d) for cnt, d in mtimes for _ in range(cnt)]
+            iexp = []
+            for cnt, d, _ in impl_time_runs(ns):
+                iexp += [to_tuple(d)] * cnt
+            if iexp != mexp:
+                detail = dict(info, model_lines=len(mexp), impl_lines=int(ns.shape[0]))
+                if ns.ndim == 2 and name in DOC and len(mexp) == ns.shape[0]:
                     # locate the first differing line and element
-                    mexp = [d for cnt, d in mruns for _ in range(cnt)]
-                    for L in range(ns.shape[0]):
-                        if to_tuple(digest(ns[L])) != mexp[L]:
-                            row = coq_row(name, n, ps, L)
-                            detail["line"] = L
-                            if row is not None and len(row) == ns.shape[1]:
-                                j = next((j for j in range(len(row)) if row[j] != int(ns[L, j])), 0)
-                                detail.update(position=int(ps[j]), model_ns=int(row[j]), impl_ns=int(ns[L, j]))
-                            else:
-                                detail.update(model=str(mexp[L]), impl=str(digest(ns[L])))
-                            break
+                    L = next(L for L in range(len(mexp)) if iexp[L] != mexp[L])
+                    row = coq_row(name, n, ps, L)
+                    detail["line"] = L
+                    if row is not None and len(row) == ns.shape[1]:
+                        j = next((j for j in range(len(row)) if row[j] != int(ns[L, j])), 0)
+                        detail.update(position=int(ps[j]), model_ns=int(row[j]), impl_ns=int(ns[L, j]))
+                    else:
+                        detail.update(model=str(mexp[L]), impl=str(iexp[L]))
                 ctx.corr_fail("M_Instruments.times B64 vs %s().times(start) [ns]" % name, detail)
